@@ -305,6 +305,9 @@ func (u *Unit) run(extra func(env *Env)) (err string) {
 	}
 	u.declareGhosts(env, blk)
 	u.runGhostKind(env, blk, "ghostinit")
+	if blk.Opts["holds-callbacks"] != "" && u.litTarget == nil {
+		u.checkHoldsCallbacks(env)
+	}
 	for k, v := range env.vars {
 		u.entry.vars[k] = v
 	}
@@ -634,7 +637,7 @@ func (u *Unit) trySpec(cl Clause, env *Env, sc *specCtx) (t Term, err string) {
 			panic(r)
 		}
 	}()
-	return u.specExprCtx(cl, env, sc), ""
+	return u.specExpr(cl, env, sc), ""
 }
 
 func (u *Unit) trySpecTerm(cl Clause, env *Env, sc *specCtx) (t Term, err string) {
@@ -683,4 +686,50 @@ func impPremise(cl Clause, cs *Contracts) ([]Clause, bool) {
 	}
 	walk(call.Args[0])
 	return out, true
+}
+
+
+// "opt holds-callbacks": the function neither calls nor passes on its function-typed parameters; it only stores them (as
+// the value of a composite-literal field or the right-hand side of an assignment).  Checked syntactically on the body.
+func (u *Unit) checkHoldsCallbacks(env *Env) {
+	sig := u.FI.Obj.Type().(*types.Signature)
+	for i := 0; i < sig.Params().Len(); i++ {
+		p := sig.Params().At(i)
+		if _, ok := types.Unalias(p.Type()).Underlying().(*types.Signature); !ok {
+			continue
+		}
+		okAll := true
+		var stack []ast.Node
+		ast.Inspect(u.FI.Decl.Body, func(n ast.Node) bool {
+			if n == nil {
+				stack = stack[:len(stack)-1]
+				return true
+			}
+			stack = append(stack, n)
+			id, ok := n.(*ast.Ident)
+			if !ok || u.Info.Uses[id] != p || len(stack) < 2 {
+				return true
+			}
+			switch par := stack[len(stack)-2].(type) {
+			case *ast.KeyValueExpr:
+				if par.Value != id {
+					okAll = false
+				}
+			case *ast.AssignStmt:
+				isRhs := false
+				for _, r := range par.Rhs {
+					if r == id {
+						isRhs = true
+					}
+				}
+				if !isRhs || len(par.Lhs) != len(par.Rhs) {
+					okAll = false
+				}
+			default:
+				okAll = false
+			}
+			return true
+		})
+		u.assert(env, "holds-callbacks/"+p.Name(), "capture", u.FI.Decl.Pos(), "the function-typed parameter "+p.Name()+" is only stored, never called or passed on", boolTerm(okAll))
+	}
 }
